@@ -24,3 +24,5 @@ Proof. repeat split; vm_compute; reflexivity. Qed.
 (* a curve that is NOT Robust (two levels 1e-7 apart): the predicate rejects it *)
 Lemma not_robust_example : robust_b tol [30; 20; 10] [5; (50000001 # 10000000); 0] = false.
 Proof. vm_compute. reflexivity. Qed.
+Lemma examples_predicate : model_ok d2_T d2_H = true /\ model_ok ex2_T ex2_H = true.
+Proof. split; [exact d2_predicate|exact (proj2 (proj2 ex2_robust))]. Qed.
